@@ -1552,6 +1552,23 @@ pub fn c08_conc(sc: &Scenario, hx: &Hx, v: &mut Verdict) {
                         break;
                     }
                     let put_like = matches!(w.cmd_kind.as_deref(), Some("Put") | Some("PutWithTTL"));
+                    if put_like && cur.is_some() && !overtook && ws[..i].iter().all(|p| !p.queued() || p.apply_end.map(|e| e.0 < w.inv).unwrap_or(false)) {
+                        // every earlier operation of the only writer had been applied and left the
+                        // key in the cache (nothing can be evicted here): it was readable when the
+                        // upsert was called, so the upsert had to update it in place
+                        v.fail(
+                            "C08",
+                            "C08/upsert-of-readable-key-took-the-put-path/conc".to_string(),
+                            format!(
+                                "k{}: {} found the key absent (it was sent as a {} and answered {:?}) although the owner's earlier operations were all applied and leave the key in the cache",
+                                k,
+                                fmt_op(w),
+                                w.cmd_kind.as_deref().unwrap_or("?"),
+                                st
+                            ),
+                            w.ret.unwrap_or(hx.len),
+                        );
+                    }
                     if put_like {
                         if st == St::Accepted {
                             let v0 = val.unwrap_or(0);
